@@ -1513,18 +1513,22 @@ let unres d = function
 type arith = { of_int : (z -> __); add0 : (__ -> __ -> __);
                sub0 : (__ -> __ -> __); mulv : (__ -> __ -> __);
                divv : (__ -> __ -> __ res); floordivv : (__ -> __ -> __ res);
-               kmul : (__ -> __ -> rnd -> __);
-               kdiv : (__ -> __ -> rnd -> __ res);
-               kmuldiv : (__ -> __ -> __ -> rnd -> __ res);
+               kmul : (__ -> __ -> bool -> __);
+               kdiv : (__ -> __ -> bool -> __ res);
+               kmuldiv : (__ -> __ -> __ -> bool -> __ res);
                eqv : (__ -> __ -> bool); ltv : (__ -> __ -> bool);
                lev : (__ -> __ -> bool); gtv : (__ -> __ -> bool);
                gev : (__ -> __ -> bool); truth : (__ -> bool);
-               vmin : (__ list -> __ res); epsilon : __; exact : bool;
-               aname : string; ainfo : string; str : (__ -> string);
-               raw_repr : (__ -> string);
-               areport : (string -> string -> string) }
+               vmin : (__ -> __ list -> __); epsilon : __; exact : bool;
+               str : (__ -> string); raw_repr : (__ -> string) }
 
 type t = __
+
+(** val rnd_of : bool -> rnd **)
+
+let rnd_of = function
+| true -> RUp
+| false -> RDown
 
 (** val nev : arith -> t -> t -> bool **)
 
@@ -1553,18 +1557,6 @@ let fixed_str st v =
   | Ok f -> render_fmt st.f_display Z0 f
   | Raise _ -> "<exception>"
 
-(** val fixed_info : z -> z -> string **)
-
-let fixed_info p d =
-  if Z.eqb p Z0
-  then "integer arithmetic"
-  else if negb (Z.eqb d p)
-       then (^) "fixed-point decimal arithmetic ("
-              ((^) (string_of_Z p)
-                ((^) " places, " ((^) (string_of_Z d) " displayed)")))
-       else (^) "fixed-point decimal arithmetic ("
-              ((^) (string_of_Z p) " places)")
-
 (** val fixed : z -> z -> arith **)
 
 let fixed p d =
@@ -1578,14 +1570,14 @@ let fixed p d =
   unres (Obj.magic Z0) (Obj.magic dunder_mul st a (OVal (Obj.magic b))));
   divv = (fun a b -> Obj.magic dunder_truediv st a (OVal (Obj.magic b)));
   floordivv = (fun a b ->
-  Obj.magic dunder_floordiv st a (OVal (Obj.magic b))); kmul = (fun a b r ->
+  Obj.magic dunder_floordiv st a (OVal (Obj.magic b))); kmul = (fun a b up ->
   unres (Obj.magic Z0)
-    (Obj.magic mul0 st (OVal (Obj.magic a)) (OVal (Obj.magic b)) r)); kdiv =
-  (fun a b r ->
-  Obj.magic div0 st (OVal (Obj.magic a)) (OVal (Obj.magic b)) r); kmuldiv =
-  (fun a b c r ->
+    (Obj.magic mul0 st (OVal (Obj.magic a)) (OVal (Obj.magic b)) (rnd_of up)));
+  kdiv = (fun a b up ->
+  Obj.magic div0 st (OVal (Obj.magic a)) (OVal (Obj.magic b)) (rnd_of up));
+  kmuldiv = (fun a b c up ->
   Obj.magic muldiv st (OVal (Obj.magic a)) (OVal (Obj.magic b)) (OVal
-    (Obj.magic c)) r); eqv = (fun a b ->
+    (Obj.magic c)) (rnd_of up)); eqv = (fun a b ->
   res_true (dunder_eq st (Obj.magic a) (OVal (Obj.magic b)))); ltv =
   (fun a b -> res_true (dunder_lt st (Obj.magic a) (OVal (Obj.magic b))));
   lev = (fun a b ->
@@ -1593,11 +1585,10 @@ let fixed p d =
   (fun a b -> res_true (dunder_gt st (Obj.magic a) (OVal (Obj.magic b))));
   gev = (fun a b ->
   res_true (dunder_ge st (Obj.magic a) (OVal (Obj.magic b)))); truth =
-  (fun a -> res_true (dunder_bool st (Obj.magic a))); vmin =
-  (Obj.magic min st); epsilon = (Obj.magic (Zpos XH)); exact = false; aname =
-  (if Z.eqb p Z0 then "integer" else "fixed"); ainfo =
-  (fixed_info p (fixed_display p d)); str = (Obj.magic fixed_str st);
-  raw_repr = (Obj.magic string_of_Z); areport = (fun _ _ -> "") }
+  (fun a -> res_true (dunder_bool st (Obj.magic a))); vmin = (fun x l ->
+  unres x (Obj.magic min st ((Obj.magic x) :: (Obj.magic l)))); epsilon =
+  (Obj.magic (Zpos XH)); exact = false; str = (Obj.magic fixed_str st);
+  raw_repr = (Obj.magic string_of_Z) }
 
 (** val mk_guarded_cls : z -> z -> z -> z -> guarded_cls **)
 
@@ -1625,60 +1616,6 @@ let guarded_str st v =
     else render_fmt st.g_precision (Z.sub st.g_display st.g_precision) f
   | Raise _ -> "<exception>"
 
-(** val guarded_info : z -> z -> z -> string **)
-
-let guarded_info p g d =
-  if negb (Z.eqb d p)
-  then (^) "guarded-precision fixed-point decimal arithmetic ("
-         ((^) (string_of_Z p)
-           ((^) "+"
-             ((^) (string_of_Z g)
-               ((^) " places; " ((^) (string_of_Z d) " displayed)")))))
-  else (^) "guarded-precision fixed-point decimal arithmetic ("
-         ((^) (string_of_Z p) ((^) "+" ((^) (string_of_Z g) " places)")))
-
-(** val tab : string **)
-
-let tab =
-  (* If this appears, you're using String internals. Please don't *)
-  (fun (c, s) -> String.make 1 c ^ s)
-
-    ((ascii_of_nat (S (S (S (S (S (S (S (S (S O)))))))))), "")
-
-(** val nl : string **)
-
-let nl =
-  (* If this appears, you're using String internals. Please don't *)
-  (fun (c, s) -> String.make 1 c ^ s)
-
-    ((ascii_of_nat (S (S (S (S (S (S (S (S (S (S O))))))))))), "")
-
-(** val guarded_report : guarded_cls -> string -> string -> string **)
-
-let guarded_report st maxd mind =
-  (^) tab
-    ((^) "maxDiff: "
-      ((^) maxd
-        ((^) "  (s/b << geps)"
-          ((^) nl
-            ((^) tab
-              ((^) "geps:    "
-                ((^) (string_of_Z st.g_geps)
-                  ((^) nl
-                    ((^) tab
-                      ((^) "minDiff: "
-                        ((^) mind
-                          ((^) "  (s/b >> geps)"
-                            ((^) nl
-                              ((^) tab
-                                ((^) "guard:   "
-                                  ((^) (string_of_Z st.g_scaleg)
-                                    ((^) nl
-                                      ((^) tab
-                                        ((^) "prec:    "
-                                          ((^) (string_of_Z st.g_scale)
-                                            ((^) nl nl)))))))))))))))))))))
-
 (** val guarded : z -> z -> z -> z -> arith **)
 
 let guarded p g d stale =
@@ -1692,14 +1629,15 @@ let guarded p g d stale =
   unres (Obj.magic Z0) (Obj.magic dunder_mul0 st a (OVal (Obj.magic b))));
   divv = (fun a b -> Obj.magic dunder_truediv0 st a (OVal (Obj.magic b)));
   floordivv = (fun a b ->
-  Obj.magic dunder_floordiv0 st a (OVal (Obj.magic b))); kmul = (fun a b r ->
+  Obj.magic dunder_floordiv0 st a (OVal (Obj.magic b))); kmul =
+  (fun a b up ->
   unres (Obj.magic Z0)
-    (Obj.magic mul1 st (OVal (Obj.magic a)) (OVal (Obj.magic b)) r)); kdiv =
-  (fun a b r ->
-  Obj.magic div1 st (OVal (Obj.magic a)) (OVal (Obj.magic b)) r); kmuldiv =
-  (fun a b c r ->
+    (Obj.magic mul1 st (OVal (Obj.magic a)) (OVal (Obj.magic b)) (rnd_of up)));
+  kdiv = (fun a b up ->
+  Obj.magic div1 st (OVal (Obj.magic a)) (OVal (Obj.magic b)) (rnd_of up));
+  kmuldiv = (fun a b c up ->
   Obj.magic muldiv0 st (OVal (Obj.magic a)) (OVal (Obj.magic b)) (OVal
-    (Obj.magic c)) r); eqv = (fun a b ->
+    (Obj.magic c)) (rnd_of up)); eqv = (fun a b ->
   res_true (dunder_eq0 st (Obj.magic a) (OVal (Obj.magic b)))); ltv =
   (fun a b -> res_true (dunder_lt0 st (Obj.magic a) (OVal (Obj.magic b))));
   lev = (fun a b ->
@@ -1707,11 +1645,10 @@ let guarded p g d stale =
   (fun a b -> res_true (dunder_gt0 st (Obj.magic a) (OVal (Obj.magic b))));
   gev = (fun a b ->
   res_true (dunder_ge0 st (Obj.magic a) (OVal (Obj.magic b)))); truth =
-  (fun a -> res_true (dunder_bool0 st (Obj.magic a))); vmin =
-  (Obj.magic min0 st); epsilon = (Obj.magic (Zpos XH)); exact =
-  (negb (Z.eqb g Z0)); aname = "guarded"; ainfo =
-  (guarded_info p g st.g_display); str = (Obj.magic guarded_str st);
-  raw_repr = (Obj.magic string_of_Z); areport = (guarded_report st) }
+  (fun a -> res_true (dunder_bool0 st (Obj.magic a))); vmin = (fun x l ->
+  unres x (Obj.magic min0 st ((Obj.magic x) :: (Obj.magic l)))); epsilon =
+  (Obj.magic (Zpos XH)); exact = (negb (Z.eqb g Z0)); str =
+  (Obj.magic guarded_str st); raw_repr = (Obj.magic string_of_Z) }
 
 (** val qz : q -> bool **)
 
@@ -1781,13 +1718,12 @@ let rational dp =
     (Obj.magic qeq_bool); ltv = (Obj.magic q_lt); lev = (Obj.magic q_le);
     gtv = (fun a b -> q_lt (Obj.magic b) (Obj.magic a)); gev = (fun a b ->
     q_le (Obj.magic b) (Obj.magic a)); truth = (fun a ->
-    negb (qz (Obj.magic a))); vmin = (py_min_by (Obj.magic q_lt)); epsilon =
-    (Obj.magic { qnum = Z0; qden = XH }); exact = true; aname = "rational";
-    ainfo = "rational arithmetic"; str = (Obj.magic rational_str dp);
-    raw_repr = (fun q0 ->
+    negb (qz (Obj.magic a))); vmin = (fun x l ->
+    unres x (py_min_by (Obj.magic q_lt) (x :: l))); epsilon =
+    (Obj.magic { qnum = Z0; qden = XH }); exact = true; str =
+    (Obj.magic rational_str dp); raw_repr = (fun q0 ->
     let r = qred (Obj.magic q0) in
-    (^) (string_of_Z r.qnum) ((^) "/" (string_of_Z (Zpos r.qden))));
-    areport = (fun _ _ -> "") }
+    (^) (string_of_Z r.qnum) ((^) "/" (string_of_Z (Zpos r.qden)))) }
 
 (** val run_asc : ('a1 -> 'a1 -> bool) -> 'a1 -> 'a1 list -> nat **)
 
@@ -2598,7 +2534,7 @@ let rew_wigm a w surp v =
 (** val rew_scot : arith -> t -> t -> t -> t res **)
 
 let rew_scot a w surp v =
-  a.kmuldiv w surp v RDown
+  a.kmuldiv w surp v false
 
 (** val initial_count : arith -> est -> est **)
 
@@ -3446,7 +3382,7 @@ let kw_warren a kf w =
 
 let kw_meek a =
   let v2 = v1 a in
-  (fun kf w -> ((a.kmul w kf RDown), (a.kmul w (a.sub0 v2 kf) RDown)))
+  (fun kf w -> ((a.kmul w kf false), (a.kmul w (a.sub0 v2 kf) false)))
 
 (** val kt : arith -> config -> t -> t -> t * t **)
 
@@ -3574,7 +3510,7 @@ let update_kfs a s =
   fold_left (fun s0 c ->
     if crashed a s0
     then s0
-    else (match a.kdiv (a.kmul (kf_of a c) s0.quota RUp) c.cvote RUp with
+    else (match a.kdiv (a.kmul (kf_of a c) s0.quota true) c.cvote true with
           | Ok k -> upd a s0 c.cid (fun c0 -> with_kf a c0 (Some k))
           | Raise e -> set_crash a s0 e)) (electeds a s) s
 
@@ -3647,10 +3583,11 @@ let meek_defeat_batch a cfg s =
 (** val low_within_surplus : arith -> est -> cand list res **)
 
 let low_within_surplus a s =
-  match a.vmin (map (fun c -> c.cvote) (hopefuls a s)) with
-  | Ok lv ->
+  match map (fun c -> c.cvote) (hopefuls a s) with
+  | [] -> Raise ValueError
+  | x :: l ->
+    let lv = a.vmin x l in
     Ok (filter (fun c -> a.gev (a.add0 lv s.surplus) c.cvote) (hopefuls a s))
-  | Raise e -> Raise e
 
 (** val meek_defeat_low :
     arith -> config -> (string -> string -> string) -> bool -> est -> est **)
@@ -3762,7 +3699,7 @@ let dist_ballot_prf a =
       (match find_cand a cs i with
        | Some c ->
          if kf_truthy a c
-         then let kw = a.kmul w (kf_of a c) RUp in
+         then let kw = a.kmul w (kf_of a c) true in
               let kv = a.mulv kw mult in
               let cs' =
                 upd_cand a i (fun c0 -> with_vote a c0 (a.add0 c0.cvote kv))
@@ -4451,7 +4388,6 @@ let run_rational dp op rn an ad bn bd cn cd =
   let a = mkq an ad in
   let b = mkq bn bd in
   let c = mkq cn cd in
-  let r0 = mk_rnd rn in
   (match op with
    | Zpos p ->
      (match p with
@@ -4465,7 +4401,7 @@ let run_rational dp op rn an ad bn bd cn cd =
                | _ -> "badop")
             | XO p2 ->
               (match p2 with
-               | XH -> show_resQ (Obj.magic r.kdiv a b r0)
+               | XH -> show_resQ (Obj.magic r.kdiv a b (Z.eqb rn (Zpos XH)))
                | _ -> "badop")
             | XH -> (^) "ok " (show_q (Obj.magic r.mulv a b)))
          | XO p1 ->
@@ -4503,13 +4439,16 @@ let run_rational dp op rn an ad bn bd cn cd =
                  (match p3 with
                   | XH -> showb (r.gev (Obj.magic a) (Obj.magic b))
                   | _ -> "badop")
-               | XH -> (^) "ok " (show_q (Obj.magic r.kmul a b r0)))
+               | XH ->
+                 (^) "ok "
+                   (show_q (Obj.magic r.kmul a b (Z.eqb rn (Zpos XH)))))
             | XH -> showb (r.truth (Obj.magic a)))
          | XO p1 ->
            (match p1 with
             | XI p2 ->
               (match p2 with
-               | XH -> show_resQ (Obj.magic r.kmuldiv a b c r0)
+               | XH ->
+                 show_resQ (Obj.magic r.kmuldiv a b c (Z.eqb rn (Zpos XH)))
                | _ -> "badop")
             | XO p2 ->
               (match p2 with
